@@ -1272,12 +1272,204 @@ Proof.
     + constructor; [|constructor]. split; reflexivity.
 Qed.
 
+
+(* ---- generic source views: OSelect *)
+Lemma select_cons {A} (xs : list (list A)) p r :
+  select xs (p :: r) = match (match nth_error xs (fst p) with Some l => nth_error l (snd p) | None => None end) with
+                       | Some v => match select xs r with Some r' => Some (v :: r') | None => None end
+                       | None => None
+                       end.
+Proof. reflexivity. Qed.
+
+Lemma select_map {A B} (g : A -> B) (xs : list (list A)) pos :
+  select (map (map g) xs) pos = option_map (map g) (select xs pos).
+Proof.
+  induction pos as [|p r IH]; [reflexivity|]. rewrite !select_cons, IH.
+  rewrite nth_error_map. destruct (nth_error xs (fst p)) as [l|]; cbn [option_map]; [|reflexivity].
+  rewrite nth_error_map. destruct (nth_error l (snd p)) as [v|]; cbn [option_map]; [|reflexivity].
+  destruct (select xs r); reflexivity.
+Qed.
+
+Lemma select_Forall2 {A B} (P : A -> B -> Prop) xs ys pos : Forall2 (Forall2 P) xs ys ->
+  forall l, select xs pos = Some l -> exists l', select ys pos = Some l' /\ Forall2 P l l'.
+Proof.
+  intros F. induction pos as [|p r IH]; intros l.
+  - intros E; inversion E; subst. exists []. split; [reflexivity|constructor].
+  - rewrite !select_cons. destruct (nth_error xs (fst p)) as [a|] eqn:Ea; [|discriminate].
+    destruct (nth_error a (snd p)) as [v|] eqn:Ev; [|discriminate].
+    destruct (select xs r) as [r'|] eqn:Er; [|discriminate]. intros E; inversion E; subst.
+    destruct (Forall2_nth_error _ _ _ _ _ F Ea) as (b & Eb & Fab).
+    destruct (Forall2_nth_error _ _ _ _ _ Fab Ev) as (w & Ew & Pvw).
+    destruct (IH _ eq_refl) as (l' & El' & Fl).
+    rewrite Eb, Ew, El'. eexists. split; [reflexivity|constructor; auto].
+Qed.
+
+Lemma Forall2_flip {A B} (P : A -> B -> Prop) l1 l2 : Forall2 P l1 l2 -> Forall2 (fun b a => P a b) l2 l1.
+Proof. induction 1; constructor; auto. Qed.
+
+Lemma Inv_gets x j ct cenv et eenv ctgt etgt fenv : Inv x j ct cenv et eenv ctgt etgt fenv ->
+  forall srcs xs, sequence (map (fun k => nth_error cenv k) srcs) = Some xs ->
+  exists exs dss, sequence (map (fun k => nth_error eenv k) srcs) = Some exs /\
+    Forall2 (cont_ok ct (S_ ct ctgt)) xs dss /\ Forall2 (eok et (S_ et etgt)) exs dss /\ Forall2 link xs exs.
+Proof.
+  intros I. induction srcs as [|a r IH]; intros xs; cbn [map sequence].
+  - intros E; inversion E; subst. exists [], []. repeat split; constructor.
+  - destruct (nth_error cenv a) as [c|] eqn:Ea; [|discriminate].
+    destruct (sequence (map _ r)) as [xr|] eqn:Er; [|discriminate]. intros E; inversion E; subst.
+    destruct (Inv_get _ _ _ _ _ _ _ _ _ _ _ I Ea) as (e & ds & Ee & Hc & He & Hl).
+    destruct (IH _ eq_refl) as (exs & dss & Ees & Hcs & Hes & Hls).
+    rewrite Ee, Ees. exists (e :: exs), (ds :: dss). repeat split; try constructor; auto.
+Qed.
+
+Lemma sim_select x j ct cenv et eenv ctgt etgt fenv f srcs ct' cs et' es :
+  Inv x j ct cenv et eenv ctgt etgt fenv ->
+  cstep ops (ct, cenv) (OSelect f srcs) = Some (Ok (ct', cs)) ->
+  estep ops (et, eenv) (OSelect f srcs) = Some (Ok (et', es)) ->
+  exists fs, Inv x j ct' (cenv ++ cs) et' (eenv ++ es) ctgt etgt (fenv ++ fs) /\ length cs = 1.
+Proof.
+  intros I. cbn [cstep estep].
+  destruct (sequence (map (fun k => nth_error cenv k) srcs)) as [xs|] eqn:Es; [|discriminate].
+  destruct (Inv_gets _ _ _ _ _ _ _ _ _ I srcs xs Es) as (exs & dss & Ees & Hc & He & Hl). rewrite Ees.
+  destruct xs as [|x0 xr]; [discriminate|].
+  destruct (negb (forallb (fun y => exact_same_list (c_hist x0) (c_hist y)) xr)) eqn:Eh; [discriminate|].
+  apply negb_false_iff in Eh.
+  assert (Hsh : map (fun c => (c_tensor c, c_shape c)) (x0 :: xr) = map (fun c => (e_tensor c, e_shape c)) exs).
+  { clear -Hl. induction Hl as [|c e cl el [L1 L2] _ IH]; cbn [map]; [reflexivity|]. rewrite L1, L2, IH. reflexivity. }
+  inversion Hl as [|? e0 ? er L0 Lr]; subst. rewrite <- Hsh.
+  destruct (f (map (fun c => (c_tensor c, c_shape c)) (x0 :: xr))) as [[[tensor sh] pos]|]; [|discriminate].
+  destruct (negb (sel_shape_ok tensor sh (length pos))); [discriminate|].
+  destruct (select (map (@c_data R) (x0 :: xr)) pos) as [data|] eqn:Ed; [|discriminate].
+  intros E; inversion E; subst ct' cs; clear E.
+  assert (Hh : map (@as_records R) (x0 :: xr) = map (map (mk (c_hist x0))) (map (@c_data R) (x0 :: xr))).
+  { cbn [map]. f_equal. clear -Eh. induction xr as [|y r IH]; cbn [map]; [reflexivity|].
+    cbn [forallb] in Eh. apply andb_true_iff in Eh as [E1 E2]. apply exact_same_list_eq in E1.
+    rewrite as_records_mk, <- E1, IH by exact E2. reflexivity. }
+  assert (Fc : Forall2 (Forall2 (rec_ok ct (S_ ct ctgt))) (map (@as_records R) (x0 :: xr)) dss).
+  { clear -Hc. induction Hc; cbn [map]; constructor; auto. }
+  assert (Sc : select (map (@as_records R) (x0 :: xr)) pos = Some (map (mk (c_hist x0)) data)).
+  { rewrite Hh, select_map, Ed. reflexivity. }
+  destruct (select_Forall2 _ _ _ _ Fc _ Sc) as (d & Sd & Fd).
+  assert (Fe : Forall2 (Forall2 (fun d r => rec_ok et (S_ et etgt) r d)) dss (map (@e_recs R) (e0 :: er))).
+  { clear -He. induction He; cbn [map]; constructor; auto. apply Forall2_flip. exact H. }
+  destruct (select_Forall2 _ _ _ _ Fe _ Sd) as (rs & Sr & Fr). rewrite Sr.
+  intros E; inversion E; subst et' es; clear E.
+  pose proof I as (G1 & _ & _ & G2 & _).
+  exists [d]. split; [|reflexivity].
+  apply (Inv_op _ _ _ _ _ _ _ _ _ _ _ _ _ _ _ _ I (ext_refl _ _ G1) (ext_refl _ _ G2)).
+  - constructor; [|constructor]. unfold cont_ok. rewrite as_records_mk. cbn [c_data c_hist]. exact Fd.
+  - constructor; [|constructor]. unfold eok. cbn [e_recs]. apply Forall2_flip in Fr. exact Fr.
+  - constructor; [|constructor]. split; reflexivity.
+Qed.
+
+(* ---- from_iters::<N> : OCollect *)
+Lemma eval_list_ok first : forall es t s x d t' ys, forallb (@local_expr R) es = true -> good t s -> rec_ok t s x d ->
+  eval_list ops t es x first = Some (Ok (t', ys)) ->
+  exists s', ext t s t' s' /\ Forall2 (rec_ok t' s') ys (map (fun e => deval e d first) es).
+Proof.
+  induction es as [|e er IH]; intros t s x d t' ys Hl G Hx; cbn [eval_list map].
+  - intros E; inversion E; subst. exists s. split; [apply ext_refl; auto|constructor].
+  - cbn [forallb] in Hl. apply andb_true_iff in Hl as [Hl1 Hl2].
+    destruct (rec_eval ops t e x first) as [[[t1 y]| |]|] eqn:E1; try discriminate.
+    destruct (rec_eval_ok first e _ _ _ _ _ _ Hl1 G Hx E1) as (s1 & X1 & Hy).
+    pose proof X1 as (_ & G1 & M1).
+    destruct (eval_list ops t1 er x first) as [[[t2 yr]| |]|] eqn:E2; try discriminate.
+    intros E; inversion E; subst t' ys; clear E.
+    destruct (IH _ _ _ _ _ _ Hl2 G1 (M1 _ _ Hx) E2) as (s2 & X2 & Hyr).
+    exists s2. split; [eapply ext_trans; eauto|]. constructor; [|exact Hyr].
+    destruct X2 as (_ & _ & M2). apply M2. exact Hy.
+Qed.
+
+Lemma push_row_ok {A B C} (P : A -> B -> Prop) (g : C -> B) (h : C -> list B) :
+  forall (es : list C) (ys : list A) (cols : list (list A)),
+  Forall2 P ys (map g es) -> Forall2 (fun col e => Forall2 P col (h e)) cols es ->
+  Forall2 (fun col e => Forall2 P col (g e :: h e)) (push_row ys cols) es.
+Proof.
+  induction es as [|e er IH]; intros ys cols Hy Hc; inversion Hy; inversion Hc; subst; cbn [push_row]; constructor.
+  - constructor; assumption.
+  - apply IH; assumption.
+Qed.
+
+Lemma eval_eachN_ok es : forallb (@local_expr R) es = true ->
+  forall rs ds first t s t' cols, good t s -> recs_ok t s rs ds ->
+  eval_eachN ops t es rs first = Some (Ok (t', cols)) ->
+  exists s', ext t s t' s' /\ Forall2 (fun col e => recs_ok t' s' col (deval_each e ds first)) cols es.
+Proof.
+  intros Hl. induction rs as [|r rest IH]; intros ds first t s t' cols G Hr; cbn [eval_eachN].
+  - intros E; inversion E; subst. exists s. split; [apply ext_refl; auto|]. inversion Hr; subst.
+    clear. induction es; cbn [map]; constructor; [constructor|assumption].
+  - inversion Hr as [|? d ? dr Hr1 Hrr]; subst.
+    destruct (eval_list ops t es r first) as [[[t1 ys]| |]|] eqn:E1; try discriminate.
+    destruct (eval_list_ok first es _ _ _ _ _ _ Hl G Hr1 E1) as (s1 & X1 & Hys).
+    pose proof X1 as (_ & G1 & M1).
+    destruct (eval_eachN ops t1 es rest false) as [[[t2 cr]| |]|] eqn:E2; try discriminate.
+    intros E; inversion E; subst t' cols; clear E.
+    destruct (IH dr false t1 s1 t2 cr G1 (recs_ok_ext _ _ _ _ _ _ X1 Hrr) E2) as (s2 & X2 & Hcr).
+    exists s2. split; [eapply ext_trans; eauto|]. pose proof X2 as (_ & _ & M2).
+    apply (push_row_ok (rec_ok t2 s2) (fun e => deval e d first) (fun e => deval_each e dr false)); [|exact Hcr].
+    clear -Hys M2. induction Hys; constructor; auto.
+Qed.
+
+Lemma collect_all_records tensor sh : forall (cols : list (list rec)) (cs : list cont),
+  collect_all (map (c_from_iter tensor sh) cols) = Some cs ->
+  Forall2 (fun c col => as_records c = col /\ c_tensor c = tensor /\ c_shape c = sh) cs cols.
+Proof.
+  unfold collect_all. induction cols as [|col r IH]; intros cs; cbn [map sequence].
+  - intros E; inversion E; subst. constructor.
+  - destruct (c_from_iter tensor sh col) as [c| |] eqn:Ef; try discriminate.
+    destruct (sequence _) as [cr|] eqn:Er; [|discriminate]. intros E; inversion E; subst.
+    constructor; [apply c_from_iter_records; exact Ef|apply IH; reflexivity].
+Qed.
+
+Lemma sim_collect x j ct cenv et eenv ctgt etgt fenv tensor sh cm take el a ct' cs et' es :
+  forallb (@local_expr R) el = true ->
+  Inv x j ct cenv et eenv ctgt etgt fenv ->
+  cstep ops (ct, cenv) (OCollect tensor sh cm take el a) = Some (Ok (ct', cs)) ->
+  estep ops (et, eenv) (OCollect tensor sh cm take el a) = Some (Ok (et', es)) ->
+  exists fs, Inv x j ct' (cenv ++ cs) et' (eenv ++ es) ctgt etgt (fenv ++ fs) /\ length cs = length el.
+Proof.
+  intros Hloc I. cbn [cstep estep].
+  destruct (nth_error cenv a) as [cx|] eqn:Ea; [|discriminate].
+  destruct (Inv_get _ _ _ _ _ _ _ _ _ _ _ I Ea) as (ex & ds & Ee & Hc & He & [L1 L2]). rewrite Ee.
+  destruct (cm && c_tensor cx); [discriminate|]. destruct (cm && e_tensor ex); [discriminate|].
+  destruct (negb tensor && negb (Nat.eqb (length sh) 2)); [discriminate|].
+  destruct (Nat.eqb (length el) 0); [discriminate|].
+  destruct (eval_eachN ops ct el (firstn take (if cm then column_major (c_shape cx) (as_records cx) else as_records cx)) true)
+    as [[[t1 cols]| |]|] eqn:E1; try discriminate.
+  destruct (collect_all (map (c_from_iter tensor sh) cols)) as [cl|] eqn:Ef; [|discriminate].
+  intros E; inversion E; subst ct' cs; clear E.
+  destruct (eval_eachN ops et el (firstn take (if cm then column_major (e_shape ex) (e_recs ex) else e_recs ex)) true)
+    as [[[t2 zcols]| |]|] eqn:E2; try discriminate.
+  cbn [omap fst snd]. intros E; inversion E; subst et' es; clear E.
+  pose proof (collect_all_records _ _ _ _ Ef) as Hrec.
+  pose proof I as (G1 & _ & _ & G2 & _).
+  set (dsel := firstn take (if cm then column_major (c_shape cx) ds else ds)).
+  assert (Hc' : recs_ok ct (S_ ct ctgt) (firstn take (if cm then column_major (c_shape cx) (as_records cx) else as_records cx)) dsel).
+  { apply Forall2_firstn. destruct cm; [apply Forall2_column_major|]; exact Hc. }
+  assert (He' : recs_ok et (S_ et etgt) (firstn take (if cm then column_major (e_shape ex) (e_recs ex) else e_recs ex)) dsel).
+  { apply Forall2_firstn. rewrite <- L2. destruct cm; [apply Forall2_column_major|]; exact He. }
+  destruct (eval_eachN_ok el Hloc _ _ _ _ _ _ _ G1 Hc' E1) as (s1 & X1 & Hys).
+  destruct (eval_eachN_ok el Hloc _ _ _ _ _ _ _ G2 He' E2) as (s2 & X2 & Hzs).
+  exists (map (fun e => deval_each e dsel true) el). split.
+  - apply (Inv_op _ _ _ _ _ _ _ _ _ _ _ s1 s2 _ _ _ I X1 X2).
+    + clear -Hrec Hys. revert el Hys. induction Hrec as [|c col cr colr (R1 & _ & _) _ IH]; intros el Hys;
+        inversion Hys; subst; cbn [map]; constructor.
+      * unfold cont_ok. first [rewrite R1; assumption | assumption].
+      * apply IH. assumption.
+    + clear -Hzs. induction Hzs; cbn [map]; constructor; auto.
+    + clear -Hrec Hys Hzs. revert zcols el Hys Hzs. induction Hrec as [|c col cr colr (_ & R2 & R3) _ IH]; intros zcols el Hys Hzs;
+        inversion Hys; subst; inversion Hzs; subst; cbn [map]; constructor.
+      * split; cbn; first [assumption | reflexivity | congruence].
+      * eapply IH; eassumption.
+  - pose proof (Forall2_len _ _ _ Hrec) as Ll. pose proof (Forall2_len _ _ _ Hys) as Ly. congruence.
+Qed.
+
 (* ------------------------------------------------------------------ whole programs *)
 (* operation kinds covered by the simulation proof below *)
 Definition supported (o : cop R) : bool :=
   match o with
   | OMap _ e _ | OFromIter _ _ _ e _ => local_expr e
   | OFromIters2 e1 e2 _ => local_expr e1 && local_expr e2
+  | OCollect _ _ _ _ es _ => forallb (@local_expr R) es
   | _ => true
   end.
 
@@ -1289,7 +1481,7 @@ Fixpoint is_input (x j k : nat) (prog : list (cop R)) : Prop :=
       match o with
       | ODecl _ true _ data => k = x /\ j < length data
       | _ => False
-      end \/ is_input x j (k + match o with OFromIters2 _ _ _ => 2 | _ => 1 end) r
+      end \/ is_input x j (k + op_outputs o) r
   end.
 
 Lemma sim_step x j ct cenv et eenv ctgt etgt fenv o ct' cs et' es :
@@ -1301,7 +1493,7 @@ Lemma sim_step x j ct cenv et eenv ctgt etgt fenv o ct' cs et' es :
     (Seeded x j cenv eenv ctgt etgt -> ctgt' = ctgt /\ etgt' = etgt) /\
     (match o with ODecl _ true _ data => length cenv = x /\ j < length data | _ => False end ->
      Seeded x j (cenv ++ cs) (eenv ++ es) ctgt' etgt') /\
-    length (cenv ++ cs) = length cenv + match o with OFromIters2 _ _ _ => 2 | _ => 1 end.
+    length (cenv ++ cs) = length cenv + op_outputs o.
 Proof.
   intros Hs I Hc He. destruct o; try discriminate.
   - destruct (sim_decl _ _ _ _ _ _ _ _ _ _ _ _ _ _ _ _ _ I Hc He) as (fs & c' & e' & I' & K1 & K2).
@@ -1338,6 +1530,12 @@ Proof.
   - destruct (sim_view _ _ _ _ _ _ _ _ _ _ _ _ _ _ _ I Hc He) as (fs & I' & Hl).
     exists fs, ctgt, etgt. split; [exact I'|]. split; [auto|]. split; [contradiction|].
     rewrite app_length, Hl. reflexivity.
+  - destruct (sim_select _ _ _ _ _ _ _ _ _ _ _ _ _ _ _ I Hc He) as (fs & I' & Hl).
+    exists fs, ctgt, etgt. split; [exact I'|]. split; [auto|]. split; [contradiction|].
+    rewrite app_length, Hl. reflexivity.
+  - cbn [supported] in Hs. destruct (sim_collect _ _ _ _ _ _ _ _ _ _ _ _ _ _ _ _ _ _ _ Hs I Hc He) as (fs & I' & Hl).
+    exists fs, ctgt, etgt. split; [exact I'|]. split; [auto|]. split; [contradiction|].
+    rewrite app_length, Hl. reflexivity.
 Qed.
 
 Lemma run_sim x j : forall prog ct cenv et eenv ctgt etgt fenv n n' m m' ct' cenv' et' eenv',
@@ -1358,7 +1556,7 @@ Proof.
     cbn [snd]. intros R1 R2.
     destruct (sim_step _ _ _ _ _ _ _ _ _ _ _ _ _ _ Hs1 I Ec Ee) as (fs & c1 & e1 & I1 & K1 & K2 & K3).
     destruct (IH _ _ _ _ _ _ _ _ _ _ _ _ _ _ _ Hs2 I1 R1 R2) as (c2 & e2 & f2 & I2 & K4).
-    exists c2, e2, f2. split; [exact I2|]. intros H. apply K4. destruct H as [H|H]; [|change (is_input x j (length cenv) (o :: r)) with ((match o with ODecl _ true _ data => length cenv = x /\ j < length data | _ => False end) \/ is_input x j (length cenv + match o with OFromIters2 _ _ _ => 2 | _ => 1 end) r) in H; destruct H as [H|H]].
+    exists c2, e2, f2. split; [exact I2|]. intros H. apply K4. destruct H as [H|H]; [|change (is_input x j (length cenv) (o :: r)) with ((match o with ODecl _ true _ data => length cenv = x /\ j < length data | _ => False end) \/ is_input x j (length cenv + op_outputs o) r) in H; destruct H as [H|H]].
     + left. destruct (K1 H) as [-> ->]. apply Seeded_app. exact H.
     + left. apply K2. destruct o; try contradiction. destruct var; [|contradiction].
       destruct H as [-> H]. auto.
